@@ -435,14 +435,17 @@ impl<S: PageSize> Iterator for PageRangeInclusive<S> {
         if self.start <= self.end {
             let page = self.start;
 
-            // If the end of the inclusive range is the maximum page possible for size S,
-            // incrementing start until it is greater than the end will cause an integer overflow.
-            // So instead, in that case we decrement end rather than incrementing start.
-            let max_page_addr = VirtAddr::new(u64::MAX) - (S::SIZE - 1);
-            if self.start.start_address() < max_page_addr {
+            // If the end of the inclusive range is the last page of a canonical half (or of
+            // the address space), incrementing start until it is greater than the end would
+            // leave the set of valid addresses. So only increment while there is a next page
+            // in the range; after the last page make the range empty in a way that is always
+            // representable.
+            if self.start < self.end {
+                self.start += 1;
+            } else if self.start.start_address().is_null() {
                 self.start += 1;
             } else {
-                self.end -= 1;
+                self.end = Page::containing_address(VirtAddr::zero());
             }
             Some(page)
         } else {
